@@ -220,6 +220,7 @@ class Model:
 
         self.obj = obj
         self.obj_support = sup_model.do_math(primal=False, obj=False)
+        self.obj_support.num_rand = sup_model.vars[-1].last
         self.sign = 1
         self.pupdate = True
         self.dupdate = True
@@ -266,6 +267,7 @@ class Model:
 
         self.obj = obj
         self.obj_support = sup_model.do_math(primal=False, obj=False)
+        self.obj_support.num_rand = sup_model.vars[-1].last
         self.sign = - 1
         self.pupdate = True
         self.dupdate = True
